@@ -966,9 +966,9 @@ func init() {
 			return e2sched{E2: e2p{Clients: n, Type: "counter", Tolerant: true}, Conc: conc, AtEnd: end}
 		}
 		if tier == "quick" {
-			p.Runs = append(p.Runs, schedRun("race-soc-2-b2", 2, race(2, "soc"), 0), schedRun("race-soc-3-b1", 1, race(3, "soc"), 0), schedRun("race-create-2-b2", 2, race(2, "create"), 0))
+			p.Runs = append(p.Runs, schedRun("race-soc-2-b2", 2, race(2, "soc"), 0), schedRun("race-soc-3-b2", 2, race(3, "soc"), 0), schedRun("race-create-2-b2", 2, race(2, "create"), 0))
 		} else {
-			p.Runs = append(p.Runs, schedRun("race-soc-2-b3", 3, race(2, "soc"), 0), schedRun("race-soc-3-b2", 2, race(3, "soc"), 0), schedRun("race-create-2-b3", 3, race(2, "create"), 0))
+			p.Runs = append(p.Runs, schedRun("race-soc-2-b3", 3, race(2, "soc"), 0), schedRun("race-soc-3-b3", 3, race(3, "soc"), 0), schedRun("race-create-2-b3", 3, race(2, "create"), 0))
 		}
 		return p
 	}
